@@ -15,13 +15,13 @@ import (
 func init() { commands["c06"] = runC06 }
 
 type c06Case struct {
-	Name   string `json:"name"`
-	Format string `json:"format"` // der | pemlf | pemcrlf
-	N      int    `json:"entries"`
-	Size   int    `json:"bytes"`
-	doc    *Doc
-	alg    SigAlg
-	file   []byte
+	Name         string `json:"name"`
+	Format       string `json:"format"` // der | pemlf | pemcrlf
+	N            int    `json:"entries"`
+	Size         int    `json:"bytes"`
+	doc          *Doc
+	alg          SigAlg
+	file         []byte
 	expectReject bool
 }
 
